@@ -96,6 +96,19 @@ impl Gen {
         if let Some(s) = self.force_string.take() {
             return s;
         }
+        if rng.chance(1, 48) {
+            // occasionally a long string (word-boundary and buffer-size edge lengths)
+            let len = *rng.pick(&[62usize, 63, 64, 65, 127, 128, 255, 256, 257, 1000, 1023, 1024, 1025, 3000]);
+            let mut out = String::with_capacity(len + 4);
+            while out.len() < len {
+                if rng.chance(1, 40) && out.len() + 3 <= len {
+                    out.push('日');
+                } else {
+                    out.push((b'a' + rng.below(26) as u8) as char);
+                }
+            }
+            return out;
+        }
         rng.pick(STRING_POOL).to_string()
     }
 
@@ -287,7 +300,13 @@ impl Gen {
                         match form {
                             Form::Min => 0,
                             Form::Max => rng.range(1, self.max_variadic.max(1)),
-                            Form::Random => rng.below(self.max_variadic + 1),
+                            Form::Random => {
+                                if rng.chance(1, 64) {
+                                    rng.range(8, 120)
+                                } else {
+                                    rng.below(self.max_variadic + 1)
+                                }
+                            }
                         }
                     }
                 }
